@@ -54,6 +54,8 @@ def raw_cost(spec, x):
         return float(np.sum((x - a) ** 2) + 0.3 * np.sum(np.cos(3 * x)))
     if fam == 'plateau':
         return float(np.floor(np.sum(np.abs(x - a))))
+    if fam == 'lin':          # unbounded below: a run on it only ever ends on a limit
+        return float(np.sum(w * (x - a)))
     if fam == 'rast':         # Rastrigin-type: rugged, makes Nelder-Mead shrink
         return float(np.sum((x - a) ** 2 + 3.0 * (1.0 - np.cos(2.0 * np.pi * (x - a)))))
     if fam == 'stair':        # a quadratic bowl quantised to steps of 1/k: exact ties occur between nearby points
